@@ -64,6 +64,7 @@ pub struct Aggregate {
     pub maxima: BTreeMap<String, u64>,
     pub distinct: BTreeMap<String, HashSet<String>>,
     pub samples: Vec<Value>,
+    pub fallback_samples: Vec<Value>,
     pub violations: Vec<FoundViolation>,
     pub inconclusive: Vec<String>,
     pub all_hashes: HashSet<u64>,
@@ -79,6 +80,7 @@ impl Aggregate {
             maxima: BTreeMap::new(),
             distinct: BTreeMap::new(),
             samples: vec![],
+            fallback_samples: vec![],
             violations: vec![],
             inconclusive: vec![],
             all_hashes: HashSet::new(),
@@ -443,6 +445,12 @@ fn run_lane<P: Prop>(
                             agg.samples.push(smp);
                         }
                     }
+                    if let Some(mut smp) = s.fallback_sample {
+                        if agg.fallback_samples.len() < 2 {
+                            smp["lane"] = json!(lane.name);
+                            agg.fallback_samples.push(smp);
+                        }
+                    }
                 }
                 Some("violation") => {
                     agg.add_violation(
@@ -636,6 +644,9 @@ pub fn supervise<P: Prop>(
         .collect();
     let distinct_json: BTreeMap<String, usize> =
         agg.distinct.iter().map(|(k, v)| (k.clone(), v.len())).collect();
+    if agg.samples.is_empty() {
+        agg.samples = std::mem::take(&mut agg.fallback_samples);
+    }
     let mut coverage = json!({
         "evaluations": evaluations,
         "distinct_cases": agg.all_hashes.len(),
